@@ -1,7 +1,9 @@
 import DaskModel.DriverLib
 import DaskModel.Model.Chunks
+import DaskModel.Model.ChunksPlanner
 import DaskModel.Model.Creation
 import DaskModel.Model.Structural
+import DaskModel.Model.ShufflePlan
 import DaskModel.Model.Counting
 import DaskModel.Generated.ChunkTolerance
 open Dask
@@ -116,6 +118,65 @@ def hGraphSize : Handler := handler fun args =>
     pure (SExp.ofNats [estimateGraphSize o n, numberOfBlocks o, numberOfBlocks n, largestBlockSize o, largestBlockSize n])
   | _ => none
 
+
+/-! ### C23 planner (`merge_to_number` heap path, `find_split_rechunk`, `find_merge_rechunk`, `plan_rechunk`) -/
+
+def encPErr : PErr → SExp
+  | .raised => .list [.sym "raised"]
+  | .nofuel => .list [.sym "nofuel"]
+  | .oracle => .list [.sym "oracle"]
+
+/-- `(merge_full (cs…) n)` -/
+def hMergeFull : Handler := handler fun args =>
+  match args with
+  | [cs, n] => do
+    match mergeToNumberFull (← cs.toNats?) (← n.toNat?) with
+    | .ok r => pure (.list [.sym "ok", SExp.ofNats r])
+    | .error e => pure (encPErr e)
+  | _ => none
+
+/-- `(find_split old new limit)` -/
+def hFindSplit : Handler := handler fun args =>
+  match args with
+  | [old, new, limit] => do
+    match findSplit (← old.toNatss?) (← new.toNatss?) (← limit.toNat?) with
+    | .ok r => pure (.list [.sym "ok", SExp.ofNatss r])
+    | .error e => pure (encPErr e)
+  | _ => none
+
+/-- `(find_merge Lnum den old new (order…))` ↦ `(ok chunks hit)` -/
+def hFindMerge : Handler := handler fun args =>
+  match args with
+  | [ln, den, old, new, order] => do
+    match findMerge (← ln.toNat?) (← den.toNat?) (← old.toNatss?) (← new.toNatss?) (← order.toNats?) with
+    | .ok (c, hit) => pure (.list [.sym "ok", SExp.ofNatss c, SExp.ofBool hit])
+    | .error e => pure (encPErr e)
+  | _ => none
+
+/-- `(plan old new itemsize threshold limit_bytes ((order…)…))` ↦ `(ok (stage…))` -/
+def hPlan : Handler := handler fun args =>
+  match args with
+  | [old, new, isz, thr, lim, orders] => do
+    match planRechunk (← old.toNatss?) (← new.toNatss?) (← isz.toNat?) (← thr.toNat?) (← lim.toNat?) (← orders.toNatss?) with
+    | .ok r => pure (.list [.sym "ok", .list (r.map SExp.ofNatss)])
+    | .error e => pure (encPErr e)
+  | _ => none
+
+/-- `(rechunk_locate (old…) (new…))` ↦ for every new block the `(old block, offset)` of each of its elements -/
+def hRechunkLocate : Handler := handler fun args =>
+  match args with
+  | [old, new] => do
+    let old ← old.toNats?
+    let new ← new.toNats?
+    match intersect1d old new with
+    | none => pure (.list [.sym "unsupported"])
+    | some plan =>
+      pure (.list [.sym "ok", .list ((List.range new.length).map (fun j =>
+        .list ((List.range (new.getD j 0)).map (fun q =>
+          match planLocate plan j q with
+          | some (i, r) => SExp.ofNats [i, r]
+          | none => .sym "none"))))])
+  | _ => none
 
 /-! ### C34 creation -/
 
@@ -238,6 +299,45 @@ def hLowerDim : Handler := handler fun args =>
   | [a, b] => do pure (SExp.ofNats (lowerDimChunks (← a.toNats?) (← b.toNats?)))
   | _ => none
 
+def encShErr : ShErr → SExp
+  | .value => .list [.sym "raised", .sym "ValueError"]
+  | .index => .list [.sym "raised", .sym "IndexError"]
+  | .zeroDiv => .list [.sym "raised", .sym "ZeroDivisionError"]
+
+/-- `(shuffle_plan (old…) ((group…)…) limit (xs…))` ↦ `(ok noop ((taker…)…) ((values…)…))` | `(raised E)`:
+    `_shuffle` as a whole (validation, "already shuffled" shortcut, grouping with the extracted tolerance, block values) -/
+def hShufflePlan : Handler := handler fun args =>
+  match args with
+  | [old, groups, limit, xs] => do
+    let old ← old.toNats?
+    let groups ← groups.toNatss?
+    let limit ← limit.toNat?
+    let xs ← xs.toInts?
+    let tn := Dask.Generated.ChunkTolerance.tolNum
+    let td := Dask.Generated.ChunkTolerance.tolDen
+    match shufflePlan old groups limit tn td, shuffleBlocks old (splitBy old xs) groups limit tn td with
+    | .ok (noop, takers), .ok bs => pure (.list [.sym "ok", SExp.ofBool noop, SExp.ofNatss takers, encIntss bs])
+    | .error e, _ => pure (encShErr e)
+    | _, .error e => pure (encShErr e)
+  | _ => none
+
+/-- `(take_plan (old…) (index…) limit (xs…))` ↦ `(ok arange ((indexer group…)…) ((values…)…))` | `(raised E)`: `slicing.take` -/
+def hTakePlan : Handler := handler fun args =>
+  match args with
+  | [old, index, limit, xs] => do
+    let old ← old.toNats?
+    let index ← index.toNats?
+    let limit ← limit.toNat?
+    let xs ← xs.toInts?
+    let tn := Dask.Generated.ChunkTolerance.tolNum
+    let td := Dask.Generated.ChunkTolerance.tolDen
+    let arange := decide (index ≠ [] ∧ index.length = Chunks.sum old ∧ isArange index = true)
+    match takeBlocks old (splitBy old xs) index limit tn td with
+    | .ok bs => pure (.list [.sym "ok", SExp.ofBool arange,
+        SExp.ofNatss (chunkEvery (averageChunk old) index.length index), encIntss bs])
+    | .error e => pure (encShErr e)
+  | _ => none
+
 
 
 /-! ### C27 counting -/
@@ -356,9 +456,12 @@ def table : List (String × Handler) := [
   ("unique_internal", hUniqueInternal), ("nonzero", hNonzero), ("coarsen_sum", hCoarsen),
   ("concat_plan", hConcatPlan), ("pad", hPad), ("pad_chunks", hPadChunks), ("roll", hRoll),
   ("expand_tuple", hExpandTuple), ("contract_tuple", hContractTuple), ("lower_dim", hLowerDim),
+  ("shuffle_plan", hShufflePlan), ("take_plan", hTakePlan),
   ("arange", hArange), ("linspace", hLinspace), ("eye", hEye), ("diag", hDiag),
   ("normalize", hNormalize), ("blockdims", hBlockdims), ("intersect1d", hIntersect),
   ("old_to_new", hOldToNew), ("rechunk1d", hRechunk1d), ("divide_to_width", hDivide),
-  ("merge_to_number", hMergeNum), ("graph_size", hGraphSize)]
+  ("merge_to_number", hMergeNum), ("graph_size", hGraphSize),
+  ("merge_full", hMergeFull), ("find_split", hFindSplit), ("find_merge", hFindMerge), ("plan", hPlan),
+  ("rechunk_locate", hRechunkLocate)]
 
 def main : IO Unit := runDriver table
